@@ -65,7 +65,8 @@ def check(ctx):
                     continue
                 ncoef = sum(P.nb[m] for m in orders)
                 for kind, d, f in datasets(rng, P.N, ncoef):
-                    for bs in ((100,) if ctx.quick else (1, 2, 100)):
+                    n_s = d.shape[0]
+                    for bs in sorted({100, max(1, n_s - 1)} if ctx.quick else {1, 2, 3, 100, max(1, n_s - 1)}):
                         o = P.new(d, f)
                         raised = None
                         try:
